@@ -709,6 +709,55 @@ func (c *Ctx) LayoutOf(v ssa.Value, at ssa.Instruction, d int) ([]seg, *layoutEr
 			return c.builderLayout(x.Call.Args[0], x)
 		case name == "bytes.Clone" || name == "slices.Clone[[]byte]":
 			return c.LayoutOf(x.Call.Args[0], x, d+1)
+		case strings.HasPrefix(name, "slices.Concat[") && len(x.Call.Args) == 1:
+			// the variadic pieces, in order
+			if sl, ok := x.Call.Args[0].(*ssa.Slice); ok {
+				if al, isAl := sl.X.(*ssa.Alloc); isAl {
+					if n, okN := fixedLen(al); okN || true {
+						_ = n
+						pieces := map[int64]ssa.Value{}
+						max := int64(-1)
+						okAll := true
+						for _, ref := range *al.Referrers() {
+							ia, isIA := ref.(*ssa.IndexAddr)
+							if !isIA {
+								continue
+							}
+							k, isK := constInt(ia.Index)
+							if !isK {
+								okAll = false
+								continue
+							}
+							for _, r2 := range *ia.Referrers() {
+								if st, isSt := r2.(*ssa.Store); isSt && st.Addr == ssa.Value(ia) {
+									pieces[k] = st.Val
+									if k > max {
+										max = k
+									}
+								}
+							}
+						}
+						if okAll && max >= 0 {
+							var out []seg
+							for i := int64(0); i <= max; i++ {
+								pv, has := pieces[i]
+								if !has {
+									okAll = false
+									break
+								}
+								l, err := c.LayoutOf(pv, x, d+1)
+								if err != nil {
+									return nil, err
+								}
+								out = append(out, l...)
+							}
+							if okAll {
+								return out, nil
+							}
+						}
+					}
+				}
+			}
 		case strings.HasPrefix(name, "(encoding/binary.bigEndian).AppendUint"):
 			w := map[string]int{"16": 2, "32": 4, "64": 8}[strings.TrimPrefix(name, "(encoding/binary.bigEndian).AppendUint")]
 			if w > 0 && len(x.Call.Args) == 3 {
